@@ -13,9 +13,10 @@ empty string, `~` for Python `None`.  One output line per input line; `bad-op` o
   a parse <cps>                                           -> str:<cps> | int:<i> | bool:<0|1> | float:<cps> | exc:<T>
   l write <dims,> <ncol> <scale flags per axis 0/1>       -> tags;row|row|…   (cells: index n, data 1000000+k, scale 2000000+10000*ax+i)
   l read <dims,> <ncol> <tags,|-> <row|row|…>             -> ok <data,>;<scale or ~ per axis, '/' separated> | err:<kind>
-  f init | f write <name> <h|t|o> <ow> <fail> <content> | f read <name> | f ls
+  f init | f write <name> <h|t|o> <ow> <fail cause 0..3> <content> | f read <name> | f ls
+  x f64 <n> | x refuses <n,n,…>                           (text writer's exactness check)
   s init | s addfile <date> | s addchild <date> <name> <isdir> | s mk <label> <hasTs> <date|~> <time|~> <ddate> <dtime>
-        | s latest <label> <date|~> | s ls
+        | s latest <label> <date|~> | s list <label|~> | s ls
   h <naxes> <ncol> <ts> <labels…>                         (see `hLine`)
   r init | r rec <d> <v,v,…|-> | r attr <d> <k> <v> | r shutdown | r swap | r flush | r file
 -/
@@ -249,12 +250,14 @@ def stepLine (st : St) (line : String) : St × String :=
   | "h" :: rest => (st, hLine rest)
   | ["f", "init"] => ({ st with folder := [] }, "ok")
   | ["f", "write", name, fmt, ow, fail, content] =>
-    match parseCps name, parseBool ow, parseBool fail, content.toNat? with
-    | some n, some o, some fl, some c =>
+    let cause : Option FailCause := if fail == "0" then some .none else if fail == "1" then some .reservedName
+      else if fail == "2" then some .lineBreakName else if fail == "3" then some .inexactInt else none
+    match parseCps name, parseBool ow, cause, content.toNat? with
+    | some n, some o, some cz, some c =>
       let f := if fmt == "h" then some Fmt.hdf5 else if fmt == "t" then some Fmt.text else if fmt == "o" then some Fmt.other else none
       match f with
       | some f =>
-        let (fs', r) := writeDataset st.folder { name := n, fmt := f, overwrite := o, writerFails := fl, content := c }
+        let (fs', r) := writeDataset st.folder { name := n, fmt := f, overwrite := o, writerFails := writerRaises f cz, content := c }
         ({ st with folder := fs' }, match r with | .ok _ => "ok" | .error e => excStr e)
       | none => (st, "bad-op")
     | _, _, _, _ => (st, "bad-op")
@@ -285,6 +288,15 @@ def stepLine (st : St) (line : String) : St × String :=
         | .ok none => "none"
         | .error e => excStr e)
     | _, _ => (st, "bad-op")
+  | ["s", "list", label] =>
+    match parseOptCps label with
+    | some l =>
+      (st, match listFolders st.dstore l with
+        | .ok fs => if fs.isEmpty then "-" else ";".intercalate (fs.map (fun (a, b, c) => showCps a ++ "/" ++ showCps b ++ "/" ++ showCps c))
+        | .error e => excStr e)
+    | none => (st, "bad-op")
+  | ["x", "f64", n] => (st, match n.toNat? with | some v => toString (toF64 v) | none => "bad-op")
+  | ["x", "refuses", vals] => (st, match parseNats vals with | some vs => (if refusesInts vs then "1" else "0") | none => "bad-op")
   | ["s", "ls"] => (st, showDStore st.dstore)
   | ["r", "init"] => ({ st with rc := { s := RecSt.init, ds := [], ks := [] } }, "ok")
   | ["r", "rec", d, vals] =>
